@@ -89,7 +89,10 @@ def load_registry():
                 h["body"] = e.group(2)
                 h["file"] = fn
                 h["attrs"] = attrs
-                h["props"] = h.get("props", "").split(",")
+                pl = h.get("props", "").split(",")
+                # "C05:t" = registered for C05 in the thorough tier only
+                h["props_thorough_only"] = [x[:-2] for x in pl if x.endswith(":t")]
+                h["props"] = [x[:-2] if x.endswith(":t") else x for x in pl]
                 h["tier"] = h.get("tier", "quick")
                 h["timeout"] = int(h.get("timeout", "600"))
                 h["mem"] = int(h.get("mem", "12"))
@@ -450,7 +453,8 @@ def main():
     os.makedirs(REPLAYS, exist_ok=True)
     t0 = time.time()
     reg = load_registry()
-    sel = [h for h in reg.values() if (prop in h["props"] or prop == "ALL") and (tier == "thorough" or h["tier"] == "quick")]
+    sel = [h for h in reg.values() if (prop in h["props"] or prop == "ALL")
+           and (tier == "thorough" or (h["tier"] == "quick" and prop not in h["props_thorough_only"]))]
     if only:
         sel = [h for h in sel if (only.search(h["name"]) if hasattr(only, "search") else h["name"] == only)]
     sel.sort(key=lambda h: -h["timeout"])
